@@ -212,3 +212,9 @@ Print Assumptions debit_credit_pp.
 Theorem debit_credit_ss : debit_credit "add_ss_assemblage".
 Proof. exact GenProofs.debit_credit_ss. Qed.
 Print Assumptions debit_credit_ss.
+
+(* T-gen (prep.cpp, check_same_model): the cached equation set is reused only if every ingredient baked into it is
+   unchanged -- in particular the alternative reactant of each pure phase is compared by identity, not by presence *)
+Theorem same_model_compares : all_present required_same_model gen_same_model = true.
+Proof. exact GenProofs.same_model_compares. Qed.
+Print Assumptions same_model_compares.
